@@ -26,13 +26,23 @@ def run(case, idx):
                 (deal.enable if a[1] else deal.disable)(); o = f'enabled={int(a[1])}'
             else:
                 name, src = a[1], a[2]
-                with open(os.path.join(d, name + '.py'), 'w') as f: f.write(src)
+                layout = a[3] if len(a) > 3 else 'module'
+                real = name
+                if layout == 'package':
+                    os.makedirs(os.path.join(d, name)); path = os.path.join(d, name, '__init__.py')
+                elif layout == 'submodule':
+                    os.makedirs(os.path.join(d, 'pk_' + name))
+                    open(os.path.join(d, 'pk_' + name, '__init__.py'), 'w').close()
+                    path = os.path.join(d, 'pk_' + name, name + '.py'); real = f'pk_{name}.{name}'
+                else:
+                    path = os.path.join(d, name + '.py')
+                with open(path, 'w') as f: f.write(src)
                 importlib.invalidate_caches()
                 try:
-                    importlib.import_module(name); r = 'ok'
+                    importlib.import_module(real); r = 'ok'
                 except BaseException as e:
                     r = type(e).__name__
-                o = f'import {name}={r} registered={int(name in sys.modules)}'
+                o = f'import {name}={r} registered={int(real in sys.modules)}'
             out.append(o + f' active={int(DealFinder in sys.meta_path)}')
     finally:
         sys.stdout = real_out
